@@ -271,10 +271,15 @@ package cmd
 //@ func writeTreeObject
 //@   returns o, err
 //@   modifies fs
-//@   requires forall i int :: 0 <= i && i < len(entries) ==> entries[i] != nil
-//@   decreases len(entries)
+//@   requires forall i int :: 0 <= i && i < len(entries) ==> entries[i] != nil && len(entries[i].Path) <= 65535
 //@   ensures [result] err == nil ==> o != nil && len(o.Hash) == 20
 //@   ensures [nil] err != nil ==> o == nil
+//@   ensures [tree-stored] {C02,C03} err == nil ==> isFile(fs, object.objPath(rootGoitPath, o.Hash)) && object.storedKind(fs, rootGoitPath, o.Hash) == object.TreeObject
+//@   ensures [objects-only] {C02,C03} forall q string :: (forall h string :: q != object.objPath(rootGoitPath, h) && q != object.objDir(rootGoitPath, h)) ==> fs[q] == old(fs)[q]
+//@   loop 0:
+//@     invariant [objects-only] {C02,C03} forall q string :: (forall h string :: q != object.objPath(rootGoitPath, h) && q != object.objDir(rootGoitPath, h)) ==> fs[q] == old(fs)[q]
+//@     invariant forall k int :: 0 <= k && k < len(entryBuf) ==> entryBuf[k] != nil && len(entryBuf[k].Path) <= 65535
+//@     invariant 0 <= i
 
 //@ func commit
 //@   returns err
